@@ -166,6 +166,14 @@ pub fn gen(ctx: &Ctx) {
             out.emit(&case, &r, "B/first-write-sweep", true);
         }
     }
+    // the no-body entry point with a length declared in the header set (the message must still be self-delimiting: no body follows)
+    for d in [1usize, 11, 5000] {
+        for hist in [format!("{}:{}", hex(b"content-length"), hex(d.to_string().as_bytes())), format!("!L{d}")] {
+            let case = format!("E 304 {} n [{}] - -", hex(b"Not Modified"), hist);
+            let r = run(&case);
+            out.emit(&case, &r, "empty-with-declared-length", true);
+        }
+    }
     // a declared Content-Length that differs from what the reader delivers, on both sides of the 8 KiB probe limit:
     // never more than the declared number of body bytes on the wire; a reader that ends early is an error above the limit
     for len in [100usize, 8192, 8193, 9000, 20000, 70000] {
